@@ -526,8 +526,12 @@ def run_batch(world, verif_seed, workers, budget_s, known, max_runs=None, only_l
         if max_runs is not None:
             n = min(n, max_runs)
         per = max(1, min(getattr(world, 'chunk', 25), (n + 63) // 64))   # independent of the worker count
-        for s in range(0, n, per):
-            plan.append((leg, list(range(s, min(n, s + per))), run_timeout(world, leg) * per + 120))
+        starts = list(range(0, n, per))
+        for k, s in enumerate(starts):
+            plan.append(((k + 0.5) / len(starts), len(plan), (leg, list(range(s, min(n, s + per))), run_timeout(world, leg) * per + 120)))
+    # the legs advance together (chunks ordered by their relative position within their leg): when a slow or busy machine reaches
+    # the wall budget, every leg has lost its tail proportionally instead of the last legs being skipped altogether
+    plan = [a for _, _, a in sorted(plan, key=lambda t: (t[0], t[1]))]
     results = []
     skipped = 0
     n_viol = 0   # once enough failing runs exist, no further chunks are started (a failing tree need not be explored to the end)
